@@ -1,10 +1,12 @@
 use crate::engine::*;
 
 pub mod c01;
+pub mod c04;
 
 pub fn dispatch(env: &Env) -> i32 {
     match env.prop.as_str() {
         "C01" => c01::run(env),
+        "C04" => c04::run(env),
         other => {
             eprintln!("no check for property {other}");
             2
